@@ -682,7 +682,7 @@ func Families(tier string) []Family {
 	// order: at least two entries in every table a diagnostic is chosen from (C20)
 	{
 		f := Family{Name: "order"}
-		toks := Ts("--ver", "--u1", "--u2", "-u3", "c1", "c2", "--aaa=x", "--bbb=y", "--ccc", "--help", "help", "x")
+		toks := Ts("--ver", "--u1", "--u2", "-u3", "c1", "c2", "--aaa=x", "--bbb=y", "--ccc", "--help", "help", "x", "c")
 		for _, um := range []int{0, 1} {
 			for mode := 0; mode < 2; mode++ {
 				c := Cfg{Mode: mode}
